@@ -55,7 +55,11 @@ pub type P2 = (f64, f64);
 pub fn simple_polygon(r: &mut Rng, nmax: usize) -> (Vec<P2>, &'static str) {
     let n = 3 + r.below((nmax - 2) as u64) as usize;
     let size = (10.0f64).powf(r.range(-0.3, 1.3));
-    match r.below(5) {
+    match r.below(6) {
+        5 => { // dart: concave quadrilateral (one reflex vertex), the smallest outline whose first corner can be reflex
+            let w = size; let h = size * r.range(0.6, 1.6); let d = r.range(0.15, 0.5);
+            (vec![(0.0, 0.0), (w / 2.0, h * d), (w, 0.0), (w / 2.0 + r.range(-0.2, 0.2) * w, h)], "dart")
+        }
         0 => { // convex: points on an ellipse
             let a = size; let b = size * r.range(0.3, 1.0);
             let mut angs: Vec<f64> = (0..n).map(|i| (i as f64 + r.range(0.1, 0.9)) / n as f64 * std::f64::consts::TAU).collect();
